@@ -210,23 +210,33 @@ type c34Result struct {
 
 func TestC34(t *testing.T) {
 	harness.Check(t, "C34",
-		"per case one relay world (real keeper, per-node allowance 2-4 relays, in-process backend) and 6 schedules; per schedule k=2..5 goroutines call HandleRelay with relays drawn "+
+		"per case one relay world (real keeper, per-node allowance 2-6 relays, in-process backend, evidence LRU capacity default / 1 / 2) and 6 schedules; per schedule k=2..5 goroutines call HandleRelay with relays drawn "+
 			"from a pool of 1..k distinct relays of one session (so identical and distinct relays race), optionally one goroutine seals as the claim sender does (evidence iterator read, "+
-			"then GenerateMerkleRoot); every goroutine parks at the two instrumented points and a drawn id sequence picks who runs next (one goroutine runs at a time). "+
-			"Oracle at quiescence: no two stored proofs with equal hash, NumOfProofs == len(Proofs) <= per-node allowance, every relay answered with a valid node signature before the seal began is stored. "+
+			"0-3 state reads, then GenerateMerkleRoot), optionally one goroutine performs 1-3 store events (FlushToDB / an evidence-iterator pass / a relay of another session of the same node: the production "+
+			"events that move evidence between the LRU and the database); every goroutine parks at the instrumented points and a drawn sequence of steps (resume parked goroutine i / the sealer / the "+
+			"store events / run one relay goroutine until it returned) followed by a drawn priority order decides who runs next. "+
+			"Oracle at quiescence: no two stored proofs with equal hash, NumOfProofs == len(Proofs) <= per-node allowance, every relay answered with a valid node signature before the seal began is stored "+
+			"(also those of the other session). "+
 			"non-trivial = case with a schedule in which, while one relay goroutine was parked between validation and storage, another relay goroutine was scheduled "+
 			"(without serialization in the code both are then inside that window at once - label overlap; with a lock the second one blocks - label blocked-on-lock)",
-		map[string]float64{"contended": 0.5, "identical-relays-race": 0.3, "with-sealer": 0.3, "limit-reached": 0.2},
+		map[string]float64{"contended": 0.5, "identical-relays-race": 0.3, "with-sealer": 0.3, "limit-reached": 0.2, "small-evidence-lru": 0.25, "with-store-events": 0.5,
+			"relay-answered-between-read-and-seal": 0.1, "relay-then-store-event-between-read-and-seal": 0.02},
 		func(rt *rapid.T, c *harness.Case) {
 			kBoth := rapid.IntRange(1, 2).Draw(rt, "peers")
-			limit := int64(rapid.IntRange(2, 4).Draw(rt, "perNodeLimit"))
+			limit := int64(rapid.IntRange(2, 6).Draw(rt, "perNodeLimit"))
 			bps := int64(rapid.IntRange(2, 4).Draw(rt, "bps"))
 			lean := rapid.Bool().Draw(rt, "lean")
+			// node operator's max_evidence_cache_entries: the default (500) or so small that the evidence of two
+			// sessions does not fit and the store flushes itself to its database when a new entry arrives
+			maxEv := rapid.SampledFrom([]int{0, 0, 1, 2}).Draw(rt, "maxEvidenceCacheEntries")
 			// allowance = round(stake / 3 chains / snc) = limit
-			w := newRelayWorld(rt, kBoth, bps, limit*3*int64(kBoth+1), 1+2*bps, lean, 0)
+			w := newRelayWorldOpts(rt, relayWorldOpts{KBoth: kBoth, Bps: bps, App0Stake: limit * 3 * int64(kBoth+1), StopAt: 1 + 2*bps, Lean: lean, MaxEvidenceEntries: maxEv})
 			defer w.close()
 			defer func() { pocketTypes.VerifYield = nil }()
 			c.Opf("%s limit=%d", w.desc, limit)
+			if maxEv > 0 {
+				c.Label("small-evidence-lru")
+			}
 			sbh := w.latestSessionStart(w.n.Height)
 			hdr := rf.Header(w.app0.PublicKey(), "0001", sbh)
 			for round := 0; round < 6; round++ {
@@ -239,7 +249,7 @@ func TestC34(t *testing.T) {
 func runC34Schedule(rt *rapid.T, c *harness.Case, w *relayWorld, hdr pocketTypes.SessionHeader, sbh, limit int64, round int) {
 	k := rapid.IntRange(2, 5).Draw(rt, "goroutines")
 	distinct := rapid.IntRange(1, k).Draw(rt, "distinctRelays")
-	withSealer := rapid.IntRange(0, 2).Draw(rt, "sealer") == 0
+	withSealer := rapid.Bool().Draw(rt, "sealer")
 	pre := rapid.IntRange(0, int(limit)-1).Draw(rt, "preStored") // relays served sequentially before the race
 	var pool []pocketTypes.Relay
 	for i := 0; i < distinct+pre; i++ {
@@ -266,11 +276,42 @@ func runC34Schedule(rt *rapid.T, c *harness.Case, w *relayWorld, hdr pocketTypes
 	if withSealer {
 		c.Label("with-sealer")
 	}
+	// production events that move evidence between the LRU and the database, as further schedulable actions of
+	// one more goroutine: the flush the node does (FlushToDB), an evidence iterator pass (what every SendClaimTx
+	// run starts with: it flushes the LRU first), and relays of another session of the same node (with a small
+	// LRU the new entry makes the store flush itself)
+	storeEvents := rapid.SliceOfN(rapid.SampledFrom([]string{"flush", "iterate", "other-session-relay"}), 0, 3).Draw(rt, "storeEvents")
 	n := k
+	sealerID, eventsID := -1, -1
 	if withSealer {
+		sealerID = n
 		n++
 	}
-	schedule := rapid.SliceOfN(rapid.IntRange(0, 11), 0, 4*n+4).Draw(rt, "schedule")
+	if len(storeEvents) > 0 {
+		eventsID = n
+		n++
+		c.Label("with-store-events")
+	}
+	for _, e := range storeEvents {
+		c.Label("store-event:" + e)
+	}
+	hdrB := rf.Header(w.app1.PublicKey(), "0001", sbh)
+	var otherPool []pocketTypes.Relay
+	for i := range storeEvents {
+		p := w.validRelayParams(sbh, w.n.Height, fmt.Sprintf(`{"other":%d,"round":%d}`, i, round))
+		p.Token = rf.MintAAT(w.app1, w.client.PublicKey())
+		otherPool = append(otherPool, rf.NewRelay(p))
+	}
+	sealerStateReads := 0
+	if withSealer {
+		sealerStateReads = rapid.IntRange(0, 3).Draw(rt, "sealerStateReads")
+	}
+	ids := make([]int, n)
+	for i := range ids {
+		ids[i] = i
+	}
+	drainOrder := rapid.Permutation(ids).Draw(rt, "drainOrder")
+	schedule := rapid.SliceOfN(rapid.OneOf(rapid.IntRange(0, 11), rapid.IntRange(12, 15)), 0, 4*n+4).Draw(rt, "schedule")
 
 	// relays stored before the race (sequential, no hook)
 	pocketTypes.VerifYield = nil
@@ -311,8 +352,39 @@ func runC34Schedule(rt *rapid.T, c *harness.Case, w *relayWorld, hdr pocketTypes
 	var sealedProofs int
 	sealFound := false
 	sealerCopy := map[string]bool{} // proofs in the (possibly stale) evidence object the sealer writes back
+	otherResults := make([]c34Result, len(storeEvents))
+	if eventsID >= 0 {
+		ctxE := w.ctx(rt)
+		s.spawn(eventsID, func() {
+			for i, e := range storeEvents {
+				switch e {
+				case "flush":
+					_ = w.selfNode.EvidenceStore.FlushToDB()
+				case "iterate":
+					it := pocketTypes.EvidenceIterator(w.selfNode.EvidenceStore)
+					for ; it.Valid(); it.Next() {
+						_ = it.Value()
+					}
+					it.Close()
+				case "other-session-relay":
+					resp, err := w.k.HandleRelay(ctxE, otherPool[i])
+					res := c34Result{relay: i, at: s.tick()}
+					if err != nil {
+						res.err = strings.ReplaceAll(errString(err), "\n", " ")
+					}
+					if err == nil && resp != nil {
+						res.answered = true
+						sig, e := hex.DecodeString(resp.Signature)
+						res.signedOK = e == nil && w.self.PublicKey().VerifyBytes(resp.Hash(), sig)
+					}
+					otherResults[i] = res
+				}
+				s.yield("did:" + e)
+			}
+		})
+	}
 	if withSealer {
-		s.spawn(k, func() {
+		s.spawn(sealerID, func() {
 			// what SendClaimTx does with the evidence of a finished session: read it through the store iterator ...
 			var ev pocketTypes.Evidence
 			it := pocketTypes.EvidenceIterator(w.selfNode.EvidenceStore)
@@ -323,7 +395,12 @@ func runC34Schedule(rt *rapid.T, c *harness.Case, w *relayWorld, hdr pocketTypes
 				}
 			}
 			it.Close()
-			s.yield("sealer.read") // (the claim sender does state reads here)
+			s.yield("sealer.read")
+			// (the claim sender does several state reads here: session context, minimum proofs, expected reward,
+			// supported chain, existing claim, claim maturity, application)
+			for i := 0; i < sealerStateReads; i++ {
+				s.yield("sealer.state-read")
+			}
 			// (the claim sender only claims evidence of at least MinimumNumberOfProofs relays; the tree builder's
 			// contract is more than one leaf)
 			if !sealFound || len(ev.Proofs) < 2 {
@@ -360,33 +437,77 @@ func runC34Schedule(rt *rapid.T, c *harness.Case, w *relayWorld, hdr pocketTypes
 	// when the limit is reached); relays answered later need not be recorded
 	sealedAt := int64(1) << 60
 	pollSeal := func() {
-		if sealedAt == int64(1)<<60 && viewEvidence(w.selfNode, hdr).sealed {
+		// (seal map lookup only: reading the evidence itself would pull it from the database back into the LRU)
+		if sealedAt == int64(1)<<60 && w.selfNode.EvidenceStore.IsSealed(pocketTypes.Evidence{SessionHeader: hdr}) {
 			sealedAt = s.tick()
 		}
 	}
 	// contended: while one relay goroutine was parked between validation and storage, another relay goroutine was
 	// scheduled (on a tree without serialization it then overlaps, on a tree with a lock it blocks)
 	contended := false
-	for _, pick := range schedule {
+	isParked := func(id int) bool { return id >= 0 && s.state[id] != "" && s.state[id] != "done" }
+	// one scheduling step: resume goroutine id (parked) and let it run to its next yield point
+	stepID := func(id int) {
 		inside := -1
 		for g := 0; g < k; g++ {
 			if s.state[g] == "relay.validated" || s.state[g] == "setproof.read" {
 				inside = g
 			}
 		}
-		id := s.step(pick)
-		if id == -1 {
-			break
-		}
+		s.state[id] = ""
+		s.resume[id] <- struct{}{}
+		s.waitFor(id)
 		if inside >= 0 && id != inside && id < k {
 			contended = true
 		}
 		noteOverlap()
 		pollSeal()
 	}
-	for len(s.parked()) > 0 {
-		s.step(0)
-		pollSeal()
+	// Schedule elements: 0..11 resume the parked goroutine number (element mod parked); 12 resumes the sealer,
+	// 13 the store-event goroutine; 14 / 15 let the first / last parked relay goroutine run on until it has
+	// returned (or blocks on a lock) - whole relays completing between two steps of the sealer or of the store
+	// events are the common case in production, and rare under uniformly drawn single steps.
+	for _, pick := range schedule {
+		p := s.parked()
+		if len(p) == 0 {
+			break
+		}
+		switch {
+		case pick == 12 && isParked(sealerID):
+			stepID(sealerID)
+		case pick == 13 && isParked(eventsID):
+			stepID(eventsID)
+		case pick >= 14:
+			wid := -1
+			for g := 0; g < k; g++ {
+				if isParked(g) && (wid == -1 || pick == 15) {
+					wid = g
+				}
+			}
+			if wid == -1 {
+				stepID(p[pick%len(p)])
+				break
+			}
+			for i := 0; i < 4 && isParked(wid); i++ {
+				stepID(wid)
+			}
+		default:
+			stepID(p[pick%len(p)])
+		}
+	}
+	// the rest runs in a drawn priority order (one step of the parked goroutine that comes first in drainOrder)
+	for {
+		next := -1
+		for _, id := range drainOrder {
+			if isParked(id) {
+				next = id
+				break
+			}
+		}
+		if next == -1 {
+			break
+		}
+		stepID(next)
 	}
 	if !s.finish() {
 		rt.Fatalf("schedule did not reach quiescence: %v", s.trace)
@@ -412,9 +533,28 @@ func runC34Schedule(rt *rapid.T, c *harness.Case, w *relayWorld, hdr pocketTypes
 
 	// ---- oracle at quiescence
 	view := viewEvidence(w.selfNode, hdr)
-	desc := fmt.Sprintf("round %d: k=%d distinct=%d assign=%v pre=%d limit=%d sealer=%v trace=%s results=%s stored=%s sealedFromTick=%d sealer(start=%d,proofs=%d)",
-		round, k, distinct, assign, pre, limit, withSealer, strings.Join(s.trace, " "), renderC34(results), view, sealedAt, sealStart, sealedProofs)
+	viewB := viewEvidence(w.selfNode, hdrB)
+	desc := fmt.Sprintf("round %d: k=%d distinct=%d assign=%v pre=%d limit=%d sealer=%v storeEvents=%v trace=%s results=%s other=%s stored=%s storedOther=%s sealedFromTick=%d sealer(start=%d,proofs=%d)",
+		round, k, distinct, assign, pre, limit, withSealer, storeEvents, strings.Join(s.trace, " "), renderC34(results), renderC34(otherResults), view, viewB, sealedAt, sealStart, sealedProofs)
 	c.Opf("%s", desc)
+	// Known-finding scoping (narrow): with an evidence LRU of capacity 1 and a second session being served, the
+	// store itself loses unflushed evidence (a read that loads one session's evidence from the database pushes the
+	// other session's newer, not yet flushed evidence out of the full LRU). A lost relay in exactly that
+	// configuration reports under its own signature; everywhere else the signatures are the usual ones.
+	singleEntryLRU := false
+	if w.selfNode.EvidenceStore.Cache.Cap() == 1 {
+		for i, res := range otherResults {
+			if storeEvents[i] == "other-session-relay" && res.answered {
+				singleEntryLRU = true
+			}
+		}
+	}
+	lossSig := func(sig string) string {
+		if singleEntryLRU {
+			return "C34/evidence/answered-relay-lost-single-entry-lru"
+		}
+		return sig
+	}
 	count := map[string]int{}
 	for _, h := range view.hashes {
 		count[h]++
@@ -473,7 +613,7 @@ func runC34Schedule(rt *rapid.T, c *harness.Case, w *relayWorld, hdr pocketTypes
 	}
 	for h := range preHashes {
 		if count[h] == 0 {
-			c.Violation("C34/evidence/earlier-relay-lost", "%s: a relay served before the race is no longer stored", desc)
+			c.Violation(lossSig("C34/evidence/earlier-relay-lost"), "%s: a relay served before the race is no longer stored", desc)
 		}
 	}
 	for g, res := range results {
@@ -491,8 +631,8 @@ func runC34Schedule(rt *rapid.T, c *harness.Case, w *relayWorld, hdr pocketTypes
 		h := proofID(pool[res.relay].Proof)
 		if count[h] == 0 {
 			switch {
-			case sealStart > 0 && !sealerCopy[h] && pos(k, "sealer.read") < pos(g, "done"):
-				c.Violation("C34/seal/answered-relay-dropped-by-seal", "%s: g%d was answered (tick %d) between the sealer's read and its seal (tick %d): the sealed evidence written back does not contain its proof", desc, g, res.at, sealStart)
+			case sealStart > 0 && !sealerCopy[h] && pos(sealerID, "sealer.read") < pos(g, "done"):
+				c.Violation(lossSig("C34/seal/answered-relay-dropped-by-seal"), "%s: g%d was answered (tick %d) between the sealer's read and its seal (tick %d): the sealed evidence written back does not contain its proof", desc, g, res.at, sealStart)
 			default:
 				raced := false
 				for o := 0; o < k; o++ {
@@ -502,11 +642,68 @@ func runC34Schedule(rt *rapid.T, c *harness.Case, w *relayWorld, hdr pocketTypes
 					}
 				}
 				if raced {
-					c.Violation("C34/evidence/answered-relay-not-recorded", "%s: g%d was answered with a signed response (tick %d, evidence sealed from tick %d) but a concurrent relay overwrote its proof", desc, g, res.at, sealedAt)
+					c.Violation(lossSig("C34/evidence/answered-relay-not-recorded"), "%s: g%d was answered with a signed response (tick %d, evidence sealed from tick %d) but a concurrent relay overwrote its proof", desc, g, res.at, sealedAt)
 				} else {
-					c.Violation("C34/evidence/answered-relay-not-recorded-without-race", "%s: g%d was answered with a signed response (tick %d, evidence sealed from tick %d) but its proof is not stored, and no concurrent write explains it", desc, g, res.at, sealedAt)
+					c.Violation(lossSig("C34/evidence/answered-relay-not-recorded-without-race"), "%s: g%d was answered with a signed response (tick %d, evidence sealed from tick %d) but its proof is not stored, and no concurrent write explains it", desc, g, res.at, sealedAt)
 				}
 			}
+		}
+	}
+	// the relays of the other session (same node, another application) are relays the node answered too: the
+	// sealer does not touch that session, so each one must be recorded, exactly once
+	countB := map[string]int{}
+	for _, h := range viewB.hashes {
+		countB[h]++
+	}
+	if viewB.num != int64(len(viewB.hashes)) {
+		c.Violation("C34/evidence/count-differs-from-proofs", "%s: other session: NumOfProofs=%d but %d proofs", desc, viewB.num, len(viewB.hashes))
+	}
+	for i, res := range otherResults {
+		if storeEvents[i] != "other-session-relay" || !res.answered {
+			continue
+		}
+		c.Label("other-session-answered")
+		if !res.signedOK {
+			c.Violation("C34/response/not-signed-by-node", "%s: other-session relay %d answered without a valid node signature", desc, i)
+		}
+		switch countB[proofID(otherPool[i].Proof)] {
+		case 1:
+		case 0:
+			c.Violation(lossSig("C34/evidence/other-session-answered-relay-not-recorded"), "%s: relay %d of the other session was answered with a signed response but its proof is not stored", desc, i)
+		default:
+			c.Violation("C34/evidence/duplicate-proof-stored-without-race", "%s: other-session relay %d stored %d times", desc, i, countB[proofID(otherPool[i].Proof)])
+		}
+	}
+	// the situation the store events are there for: after the sealer read its copy, a relay was answered, then the
+	// evidence moved (LRU -> database) once more, and only then the sealer sealed
+	if sealStart > 0 {
+		c.Label("sealed-by-sealer")
+		c.AddExtra("schedules_sealed_by_sealer", 1)
+		for g := 0; g < k; g++ {
+			if results[g].answered && pos(sealerID, "sealer.read") < pos(g, "done") && pos(g, "done") < pos(sealerID, "done") {
+				c.Label("relay-answered-between-read-and-seal")
+				c.AddExtra("schedules_relay_answered_between_read_and_seal", 1)
+				break
+			}
+		}
+	}
+	if sealStart > 0 && eventsID >= 0 {
+		moved := -1
+		for i, e := range s.trace {
+			if !strings.HasPrefix(e, fmt.Sprintf("g%d@did:", eventsID)) || (strings.HasSuffix(e, "other-session-relay") && w.selfNode.EvidenceStore.Cache.Cap() > 1) {
+				continue // (a relay of another session moves the evidence only when the LRU holds a single entry)
+			}
+			if i > pos(sealerID, "sealer.read") && i < pos(sealerID, "done") {
+				for g := 0; g < k; g++ {
+					if results[g].answered && pos(sealerID, "sealer.read") < pos(g, "done") && pos(g, "done") < i {
+						moved = i
+					}
+				}
+			}
+		}
+		if moved >= 0 {
+			c.AddExtra("schedules_relay_then_store_event_between_read_and_seal", 1)
+			c.Label("relay-then-store-event-between-read-and-seal")
 		}
 	}
 	answered := 0
